@@ -247,10 +247,19 @@ Proof.
   destruct (bstr_eqb name n_escapeJsString); eexists; split; reflexivity.
 Qed.
 
-Lemma print_dirs_agok l :
-  agok2 (fun dsv ds => ds = map dconv dsv) (print_dirs_hook cf x_dirs w1 l) (print_dirs cf w2 l).
+(* [Interp.print_dirs] checks the application of each directive as it goes (two lifted pure steps the hooked loop
+   does not have): when they answer, the two loops go on together *)
+Lemma agok2_lift_r {A B C} (R : A -> B -> Prop) (m1 : M A) (o : outcome C) (f : C -> M B) :
+  (forall x, o = Ok x -> agok2 R m1 (f x)) -> agok2 R m1 (x <-- lift o ;;; f x).
 Proof.
-  induction l as [|d r IH]; cbn [print_dirs_hook print_dirs].
+  intros H st. rewrite lift_bind. destruct o; try (left; cbn [fst]; intros y; discriminate).
+  apply H. reflexivity.
+Qed.
+
+Lemma print_dirs_agok l : forall v,
+  agok2 (fun dsv ds => ds = map dconv dsv) (print_dirs_hook cf x_dirs w1 l) (print_dirs cf w2 l v).
+Proof.
+  induction l as [|d r IH]; intros v; cbn [print_dirs_hook print_dirs].
   - intros st. right. do 2 eexists. split; [reflexivity|]. split; [reflexivity|].
     rewrite map_map. reflexivity.
   - destruct d; try apply agok2_fail_r.
@@ -258,7 +267,8 @@ Proof.
     destruct (x_dirs_arities _ _ _ Hl) as (de & Hde & Har). rewrite Hde, Har.
     destruct (negb (check_num_args arglens (length args))); [apply agok2_fail_r|].
     apply (agok2_bind2 eq); [apply agok_to_2; apply agok_eval_list; exact Hw|]. intros vs ? <-.
-    apply (agok2_bind2 (fun dsv ds => ds = map dconv dsv)); [exact IH|]. intros dsv ds ->.
+    apply agok2_lift_r. intros s _. apply agok2_lift_r. intros ws _.
+    apply (agok2_bind2 (fun dsv ds => ds = map dconv dsv)); [apply IH|]. intros dsv ds ->.
     intros st. right. do 2 eexists. split; [reflexivity|]. split; [reflexivity|]. reflexivity.
 Qed.
 
@@ -283,7 +293,7 @@ Proof.
   unfold print_hook. apply agok_bind; [apply Hw|]. intros v.
   assert (Hrest : agok (ds <-- print_dirs_hook cf x_dirs w1 dirs ;;;
                         st <-- get ;;; ws <-- lift (print_writes_hook x_dirs (mode st) ds v) ;;; _ <-- write_all ws ;;; ret VUndef)
-                       (ds <-- print_dirs cf w2 dirs ;;;
+                       (ds <-- print_dirs cf w2 dirs v ;;;
                         s <-- lift (value_string v) ;;; st <-- get ;;; ws <-- lift (print_writes (mode st) ds s) ;;;
                         _ <-- write_all ws ;;; ret VUndef)).
   { apply (agok2_bind (fun dsv ds => ds = map dconv dsv)); [apply print_dirs_agok|].
